@@ -40,6 +40,13 @@ CLAIMED = {
         "Trusts the reset of the module caches (validated against a spawned interpreter), the canonical keys (soundness argument in vf/props/c19.py), np.load of the data files. Alphabet: 2 methods x 2 degrees per run (all four methods over the runs), edits are '*= 2' in place.",
         "DESIGN.md 3/C19",
     ),
+    "C10": (
+        "model_checking",
+        "explicit-state breadth-first exploration of histories of local-grid queries and points/weights reassignments on one live instance per grid kind (12 kinds), brute-force distance filter on the reference model's current arrays after every query; complete product grid kind x index kind for selection",
+        "Per grid kind the reachable abstract state space (points version x weights version x which array the lazy tree indexes) is small and is exhausted within the depth bound (quick 4, thorough 5: all 204 canonical states, about 3.8e3 transitions, every transition executed on the real object); selection is a complete 10 x 27 product.",
+        "Reassignment = the points/weights setters. Boundary ties within 1e-12*(1+r) are excluded. radius=inf on PeriodicGrid belongs to C11. Trusts cKDTree only through the brute-force comparison.",
+        "DESIGN.md 3/C10",
+    ),
 }
 
 NOT_YET = "check not built yet in this session (work in progress; see DESIGN.md section 8 for the order of work)"
